@@ -117,7 +117,10 @@ theorem T_recordFnRef_some {f : Name} {st st' : PState} {g : Name} (h : recordFn
   split at h
   · cases h
   · cases h
-    exact T_updFunc (fun _ => ⟨rfl, rfl⟩) (fun _ => rfl) _ _
+    dsimp only
+    refine T_updFunc (v := addRefs [g]) ?_ ?_ _ _
+    · exact fun _ => ⟨rfl, rfl⟩
+    · exact fun _ => rfl
 
 theorem T_recordFnRef_none {st st' : PState} {g : Name} (h : recordFnRef none st g = .ok st') :
     T st'.globals = updT (T st.globals) g setRoot := by
@@ -125,7 +128,10 @@ theorem T_recordFnRef_none {st st' : PState} {g : Name} (h : recordFnRef none st
   split at h
   · cases h
   · cases h
-    exact T_updFunc (fun _ => ⟨rfl, rfl⟩) (fun _ => rfl) _ _
+    dsimp only
+    refine T_updFunc (v := setRoot) ?_ ?_ _ _
+    · exact fun _ => ⟨rfl, rfl⟩
+    · exact fun _ => rfl
 
 /-- references recorded by an initializer inside the body of `f` -/
 theorem T_initItems_some {f : Name} : ∀ (items : List InitItem) {st st' : PState} {ss : List Sym},
@@ -180,5 +186,453 @@ theorem T_initItems_some {f : Name} : ∀ (items : List InitItem) {st st' : PSta
         have ih' := ih (st := (newAnon st (strTy n) true).1) (st' := p2.1) (ss := p2.2) (by simpa using h2)
         rw [ih', T_newAnon]
         simp [initFnRefs]
+
+theorem setRoot_idem (v : FV) : setRoot (setRoot v) = setRoot v := rfl
+
+theorem rootAll_cons (t : Name → Option FV) (g : Name) (l : List Name) :
+    rootAll (updT t g setRoot) l = rootAll t (g :: l) := by
+  funext h
+  by_cases hg : h = g
+  · subst hg
+    simp only [rootAll, updT, if_true, Option.map_map, List.mem_cons, true_or]
+    congr 1
+    funext v
+    simp only [Function.comp]
+    split <;> rfl
+  · simp [rootAll, updT, hg]
+
+/-- references in a file-scope initializer make roots -/
+theorem T_initItems_none : ∀ (items : List InitItem) {st st' : PState} {ss : List Sym},
+    initItems none st items = .ok (st', ss) → T st'.globals = rootAll (T st.globals) (initFnRefs items) := by
+  intro items
+  induction items with
+  | nil =>
+    intro st st' ss h
+    simp only [initItems, pure, Except.pure, Except.ok.injEq, Prod.mk.injEq] at h
+    rw [← h.1]
+    simp [initFnRefs, rootAll_nil]
+  | cons it rest ih =>
+    intro st st' ss h
+    cases it with
+    | ref r =>
+      simp only [initItems, bind, Except.bind] at h
+      split at h
+      · cases h
+      · rename_i p1 h1
+        split at h
+        · cases h
+        · rename_i p2 h2
+          simp only [pure, Except.pure, Except.ok.injEq, Prod.mk.injEq] at h
+          rw [← h.1]
+          have ih' := ih (st := p1.1) (st' := p2.1) (ss := p2.2) (by simpa using h2)
+          rw [ih']
+          cases r with
+          | fn g =>
+            simp only [useRef, bind, Except.bind] at h1
+            split at h1
+            · cases h1
+            · rename_i st1 hr
+              simp only [pure, Except.pure, Except.ok.injEq] at h1
+              have : p1.1 = st1 := by rw [← h1]
+              rw [this, T_recordFnRef_none hr, rootAll_cons]
+              simp [initFnRefs]
+          | obj x =>
+            simp only [useRef] at h1
+            split at h1
+            · cases h1
+            · simp only [pure, Except.pure, Except.ok.injEq] at h1
+              have : p1.1 = st := by rw [← h1]
+              rw [this]
+              simp [initFnRefs]
+    | str n =>
+      simp only [initItems, bind, Except.bind] at h
+      split at h
+      · cases h
+      · rename_i p2 h2
+        simp only [pure, Except.pure, Except.ok.injEq, Prod.mk.injEq] at h
+        rw [← h.1]
+        have ih' := ih (st := (newAnon st (strTy n) true).1) (st' := p2.1) (ss := p2.2) (by simpa using h2)
+        rw [ih', T_newAnon]
+        simp [initFnRefs]
+
+theorem data_pred (s : Sym) : ∀ o : Obj, (o.sym == s && !o.isFunction) = true → o.isFunction = false := by
+  intro o h
+  simp only [Bool.and_eq_true, Bool.not_eq_true'] at h
+  exact h.2
+
+/-- one body item: the function references it records are appended to `f`'s list -/
+theorem T_bodyItem {f : Name} {st st' : PState} {b : BodyItem} {us : List Sym}
+    (h : bodyItem f st b = .ok (st', us)) :
+    T st'.globals = updT (T st.globals) f (addRefs (bodyFnRefs [b])) := by
+  cases b with
+  | ref r =>
+    simp only [bodyItem, bind, Except.bind] at h
+    split at h
+    · cases h
+    · rename_i p1 h1
+      simp only [pure, Except.pure, Except.ok.injEq, Prod.mk.injEq] at h
+      rw [← h.1]
+      cases r with
+      | fn g =>
+        simp only [useRef, bind, Except.bind] at h1
+        split at h1
+        · cases h1
+        · rename_i st1 hr
+          simp only [pure, Except.pure, Except.ok.injEq] at h1
+          have : p1.1 = st1 := by rw [← h1]
+          rw [this, T_recordFnRef_some hr]
+          simp [bodyFnRefs]
+      | obj x =>
+        simp only [useRef] at h1
+        split at h1
+        · cases h1
+        · simp only [pure, Except.pure, Except.ok.injEq] at h1
+          have : p1.1 = st := by rw [← h1]
+          rw [this]
+          simp [bodyFnRefs, addRefs_nil, updT_id]
+  | staticLocal tls ty init =>
+    cases init with
+    | none =>
+      simp only [bodyItem, pure, Except.pure, Except.ok.injEq, Prod.mk.injEq] at h
+      rw [← h.1]
+      dsimp only
+      rw [T_updFirst_data (u := fun o => { o with isTls := tls }) (data_pred _) (fun _ => ⟨rfl, rfl⟩), T_newAnon]
+      simp [bodyFnRefs, addRefs_nil, updT_id]
+    | some items =>
+      simp only [bodyItem, bind, Except.bind] at h
+      split at h
+      · cases h
+      · rename_i p1 h1
+        simp only [pure, Except.pure, Except.ok.injEq, Prod.mk.injEq] at h
+        rw [← h.1]
+        dsimp only
+        have h1' := T_initItems_some items (st' := p1.1) (ss := p1.2) (by simpa using h1)
+        dsimp only at h1'
+        rw [T_updFirst_data (u := fun o => { o with isTls := tls }) (data_pred _) (fun _ => ⟨rfl, rfl⟩), T_newAnon] at h1'
+        unfold setUses
+        rw [T_updFirst_data (u := fun o => { o with uses := p1.2 }) (data_pred _) (fun _ => ⟨rfl, rfl⟩), h1']
+        simp [bodyFnRefs]
+  | str n =>
+    simp only [bodyItem, pure, Except.pure, Except.ok.injEq, Prod.mk.injEq] at h
+    rw [← h.1, T_newAnon]
+    simp [bodyFnRefs, addRefs_nil, updT_id]
+  | externObj x tls ty =>
+    simp only [bodyItem, pure, Except.pure, Except.ok.injEq, Prod.mk.injEq] at h
+    rw [← h.1]
+    dsimp only
+    rw [T_cons_data rfl]
+    simp [bodyFnRefs, addRefs_nil, updT_id]
+
+theorem bodyFnRefs_cons (b : BodyItem) (rest : List BodyItem) :
+    bodyFnRefs (b :: rest) = bodyFnRefs [b] ++ bodyFnRefs rest := by
+  simp [bodyFnRefs]
+
+theorem T_bodyItems {f : Name} : ∀ (items : List BodyItem) {st st' : PState} {us : List Sym},
+    bodyItems f st items = .ok (st', us) → T st'.globals = updT (T st.globals) f (addRefs (bodyFnRefs items)) := by
+  intro items
+  induction items with
+  | nil =>
+    intro st st' us h
+    simp only [bodyItems, pure, Except.pure, Except.ok.injEq, Prod.mk.injEq] at h
+    rw [← h.1]
+    simp [bodyFnRefs, addRefs_nil, updT_id]
+  | cons b rest ih =>
+    intro st st' us h
+    simp only [bodyItems, bind, Except.bind] at h
+    split at h
+    · cases h
+    · rename_i p1 h1
+      split at h
+      · cases h
+      · rename_i p2 h2
+        simp only [pure, Except.pure, Except.ok.injEq, Prod.mk.injEq] at h
+        rw [← h.1]
+        have e1 := T_bodyItem (st' := p1.1) (us := p1.2) (by simpa using h1)
+        have e2 := ih (st := p1.1) (st' := p2.1) (us := p2.2) (by simpa using h2)
+        rw [e2, e1, updT_updT, addRefs_addRefs, ← bodyFnRefs_cons]
+
+/-! ### the abstract step on the function table -/
+
+/-- what one file-scope declaration does to the function table -/
+def stepT (t : Name → Option FV) : Decl → (Name → Option FV)
+  | .func f _ s e i body =>
+    let t1 : Name → Option FV := match t f with
+      | some _ => updT t f (orDef body.isSome)
+      | none => fun g => if g = f then some ⟨s || (i && !e), i, false, body.isSome, []⟩ else t g
+    let t2 := updT t1 f rootIf
+    match body with
+    | none => t2
+    | some b => updT t2 f (addRefs (bodyFnRefs b))
+  | .obj _ _ _ _ _ init =>
+    match init with
+    | none => t
+    | some items => rootAll t (initFnRefs items)
+
+theorem fview_rootIf (o : Obj) :
+    fview (if !(o.isStatic && o.isInline) then { o with isRoot := true } else o) = rootIf (fview o) := by
+  unfold rootIf fview
+  by_cases h : (!(o.isStatic && o.isInline)) = true
+  · simp only [h, if_true]
+  · simp only [h]; rfl
+
+theorem T_none_iff (gs : List Obj) (f : Name) : T gs f = none ↔ findFunc gs f = none := by
+  simp [T]
+
+theorem T_declFunctionHead {st st' : PState} {f : Name} {s e i b : Bool}
+    (h : declFunctionHead st f s e i b = .ok st') :
+    T st'.globals = updT (match T st.globals f with
+      | some _ => updT (T st.globals) f (orDef b)
+      | none => fun g => if g = f then some ⟨s || (i && !e), i, false, b, []⟩ else T st.globals g) f rootIf := by
+  unfold declFunctionHead at h
+  split at h
+  · rename_i fn hfn
+    have hT : T st.globals f = some (fview fn) := by simp [T, hfn]
+    split at h
+    · cases h
+    · split at h
+      · cases h
+      · cases h
+        dsimp only
+        rw [hT]
+        dsimp only
+        rw [T_updFunc (u := fun o => if !(o.isStatic && o.isInline) then { o with isRoot := true } else o) (v := rootIf),
+            T_updFunc (u := fun o => { o with isDefinition := o.isDefinition || b }) (v := orDef b)]
+        · exact fun _ => ⟨rfl, rfl⟩
+        · exact fun _ => rfl
+        · intro o; dsimp only; split <;> exact ⟨rfl, rfl⟩
+        · exact fview_rootIf
+  · rename_i hfn
+    have hT : T st.globals f = none := by simp [T, hfn]
+    cases h
+    dsimp only
+    rw [hT]
+    dsimp only
+    rw [T_updFunc (u := fun o => if !(o.isStatic && o.isInline) then { o with isRoot := true } else o) (v := rootIf)]
+    · rw [T_cons_fn rfl rfl]
+      rfl
+    · intro o; dsimp only; split <;> exact ⟨rfl, rfl⟩
+    · exact fview_rootIf
+
+theorem T_declStep {st st' : PState} {d : Decl} (h : declStep st d = .ok st') :
+    T st'.globals = stepT (T st.globals) d := by
+  cases d with
+  | func f n s e i body =>
+    simp only [declStep, declFunction] at h
+    split at h
+    · cases h
+    · rename_i st1 h1
+      have e1 := T_declFunctionHead h1
+      cases body with
+      | none =>
+        cases h
+        simp only [stepT]
+        rw [e1]
+      | some items =>
+        simp only at h
+        split at h
+        · cases h
+        · rename_i st2 uses hp
+          cases h
+          dsimp only
+          rw [T_updFunc (u := fun o => { o with uses := uses }) (v := fun v => v) (fun _ => ⟨rfl, rfl⟩) (fun _ => rfl), updT_id,
+              T_bodyItems items hp, T_newAnon, T_newAnon, e1]
+          simp only [stepT]
+  | obj x s e t ty init =>
+    simp only [declStep, declObject] at h
+    cases init with
+    | none =>
+      simp only [pure, Except.pure, Except.ok.injEq] at h
+      rw [← h]
+      dsimp only
+      rw [T_cons_data rfl]
+      rfl
+    | some items =>
+      simp only [bind, Except.bind] at h
+      split at h
+      · cases h
+      · rename_i p hp
+        simp only [pure, Except.pure, Except.ok.injEq] at h
+        rw [← h]
+        dsimp only
+        rw [T_updFirst_data (u := fun o => { o with uses := p.2 })
+              (p := fun o => o.sym == .named x && !o.isFunction) (data_pred _) (fun _ => ⟨rfl, rfl⟩)]
+        have := T_initItems_none items (st' := p.1) (ss := p.2) (by simpa using hp)
+        rw [this]
+        dsimp only
+        rw [T_cons_data rfl]
+        rfl
+
+/-- folding `stepT` -/
+def foldT (t : Name → Option FV) : List Decl → (Name → Option FV)
+  | [] => t
+  | d :: ds => foldT (stepT t d) ds
+
+theorem T_declAll : ∀ (ds : List Decl) {st st' : PState}, declAll st ds = .ok st' →
+    T st'.globals = foldT (T st.globals) ds := by
+  intro ds
+  induction ds with
+  | nil =>
+    intro st st' h
+    simp only [declAll, pure, Except.pure, Except.ok.injEq] at h
+    rw [← h]; rfl
+  | cons d rest ih =>
+    intro st st' h
+    simp only [declAll, bind, Except.bind] at h
+    split at h
+    · cases h
+    · rename_i st1 h1
+      rw [ih h, T_declStep h1]
+      rfl
+
+/-! ### layer 2: the entry of one name evolves by itself -/
+
+theorem rootIf_isStatic (v : FV) : (rootIf v).isStatic = v.isStatic := by
+  unfold rootIf; by_cases h : (!(v.isStatic && v.isInline)) = true <;> simp [h]
+theorem rootIf_isInline (v : FV) : (rootIf v).isInline = v.isInline := by
+  unfold rootIf; by_cases h : (!(v.isStatic && v.isInline)) = true <;> simp [h]
+theorem rootIf_refs (v : FV) : (rootIf v).refs = v.refs := by
+  unfold rootIf; by_cases h : (!(v.isStatic && v.isInline)) = true <;> simp [h]
+theorem rootIf_isDefinition (v : FV) : (rootIf v).isDefinition = v.isDefinition := by
+  unfold rootIf; by_cases h : (!(v.isStatic && v.isInline)) = true <;> simp [h]
+theorem rootIf_isRoot (v : FV) : (rootIf v).isRoot = (v.isRoot || !(v.isStatic && v.isInline)) := by
+  unfold rootIf
+  by_cases h : (!(v.isStatic && v.isInline)) = true
+  · simp only [h, if_true, Bool.or_true]
+  · simp only [h]
+    simp only [Bool.not_eq_true] at h
+    simp [h]
+
+/-- what a declaration does to the table entry of `f`, given only that entry -/
+def stepFV (d : Decl) (f : Name) (cur : Option FV) : Option FV :=
+  match d with
+  | .func g _ s e i body =>
+    if f = g then
+      let v1 : FV := match cur with
+        | some v => orDef body.isSome v
+        | none => ⟨s || (i && !e), i, false, body.isSome, []⟩
+      let v2 := rootIf v1
+      some (match body with | none => v2 | some b => addRefs (bodyFnRefs b) v2)
+    else cur
+  | .obj _ _ _ _ _ init =>
+    match init with
+    | none => cur
+    | some items => cur.map (fun v => if f ∈ initFnRefs items then setRoot v else v)
+
+theorem stepT_eq (t : Name → Option FV) (d : Decl) (f : Name) : stepT t d f = stepFV d f (t f) := by
+  cases d with
+  | func g n s e i body =>
+    simp only [stepT, stepFV]
+    by_cases hfg : f = g
+    · subst hfg
+      simp only [if_true]
+      cases ht : t f with
+      | none => cases body <;> simp [updT]
+      | some v => cases body <;> simp [updT, ht]
+    · simp only [hfg, if_false]
+      cases ht : t g with
+      | none => cases body <;> simp [updT, hfg]
+      | some v => cases body <;> simp [updT, hfg]
+  | obj x s e t' ty init =>
+    cases init with
+    | none => rfl
+    | some items => rfl
+
+theorem foldT_eq : ∀ (ds : List Decl) (t : Name → Option FV) (f : Name),
+    foldT t ds f = ds.foldl (fun cur d => stepFV d f cur) (t f)
+  | [], _, _ => rfl
+  | d :: ds, t, f => by
+    simp only [foldT, List.foldl_cons]
+    rw [foldT_eq ds (stepT t d) f, stepT_eq]
+
+/-- the entry of `f` after the declarations `ds`, starting from `cur` -/
+def evolve (ds : List Decl) (f : Name) (cur : Option FV) : Option FV := ds.foldl (fun cur d => stepFV d f cur) cur
+
+def declares (ds : List Decl) (f : Name) : Bool := ds.any (fun d => match d with | .func g .. => g == f | _ => false)
+
+/-- the references recorded in all bodies of `f` (a valid unit has at most one) -/
+def allBodyRefs (ds : List Decl) (f : Name) : List Name :=
+  ds.flatMap (fun d => match d with | .func g _ _ _ _ (some b) => if g = f then bodyFnRefs b else [] | _ => [])
+
+/-- `f` is named in a file-scope initializer at a point where it is declared -/
+def fileRooted : List Decl → Bool → Name → Bool
+  | [], _, _ => false
+  | .func g _ _ _ _ _ :: ds, dcl, f => fileRooted ds (dcl || g == f) f
+  | .obj _ _ _ _ _ init :: ds, dcl, f =>
+    (dcl && (match init with | some items => (initFnRefs items).contains f | none => false)) || fileRooted ds dcl f
+
+/-- the flags `function` gives a new object -/
+def firstFlags (ds : List Decl) (f : Name) : Option (Bool × Bool) :=
+  ds.findSome? (fun d => match d with
+    | .func g _ s e i _ => if g = f then some (s || (i && !e), i) else none
+    | _ => none)
+
+theorem evolve_some_flags : ∀ (ds : List Decl) (f : Name) (v : FV),
+    ∃ v', evolve ds f (some v) = some v' ∧ v'.isStatic = v.isStatic ∧ v'.isInline = v.isInline ∧
+      v'.refs = v.refs ++ allBodyRefs ds f ∧
+      v'.isRoot = (v.isRoot || (declares ds f && !(v.isStatic && v.isInline)) || fileRooted ds true f)
+  | [], f, v => ⟨v, rfl, rfl, rfl, by simp [allBodyRefs], by simp [declares, fileRooted]⟩
+  | d :: ds, f, v => by
+    cases d with
+    | func g n s e i body =>
+      by_cases hfg : f = g
+      · subst hfg
+        -- the entry after this declaration
+        have hstep : ∃ v1, stepFV (.func f n s e i body) f (some v) = some v1 ∧ v1.isStatic = v.isStatic ∧
+            v1.isInline = v.isInline ∧
+            v1.refs = v.refs ++ (match body with | some b => bodyFnRefs b | none => []) ∧
+            v1.isRoot = (v.isRoot || !(v.isStatic && v.isInline)) := by
+          simp only [stepFV, if_true]
+          cases body with
+          | none =>
+            refine ⟨_, rfl, ?_, ?_, ?_, ?_⟩ <;>
+              simp [rootIf_isStatic, rootIf_isInline, rootIf_refs, rootIf_isRoot, orDef]
+          | some b =>
+            refine ⟨_, rfl, ?_, ?_, ?_, ?_⟩ <;>
+              simp [rootIf_isStatic, rootIf_isInline, rootIf_refs, rootIf_isRoot, orDef, addRefs]
+        obtain ⟨v1, h1, hs1, hi1, hr1, hroot1⟩ := hstep
+        obtain ⟨v', h', hs', hi', hr', hroot'⟩ := evolve_some_flags ds f v1
+        refine ⟨v', ?_, hs'.trans hs1, hi'.trans hi1, ?_, ?_⟩
+        · simp only [evolve, List.foldl_cons] at h' ⊢
+          rw [h1]; exact h'
+        · rw [hr', hr1]
+          cases body <;> simp [allBodyRefs, List.append_assoc]
+        · rw [hroot', hroot1, hs1, hi1]
+          simp only [declares, List.any_cons, beq_self_eq_true, Bool.true_or, Bool.true_and, fileRooted, Bool.or_true]
+          cases v.isRoot <;> cases (!(v.isStatic && v.isInline)) <;> simp [declares]
+      · obtain ⟨v', h', hs', hi', hr', hroot'⟩ := evolve_some_flags ds f v
+        refine ⟨v', ?_, hs', hi', ?_, ?_⟩
+        · simp only [evolve, List.foldl_cons, stepFV, hfg, if_false] at h' ⊢
+          exact h'
+        · rw [hr']
+          have : g ≠ f := fun e => hfg e.symm
+          cases body <;> simp [allBodyRefs, this]
+        · rw [hroot']
+          have : (g == f) = false := by simp; exact fun e => hfg e.symm
+          simp [declares, fileRooted, this]
+    | obj x s e t ty init =>
+      cases init with
+      | none =>
+        obtain ⟨v', h', hs', hi', hr', hroot'⟩ := evolve_some_flags ds f v
+        refine ⟨v', ?_, hs', hi', ?_, ?_⟩
+        · simp only [evolve, List.foldl_cons, stepFV] at h' ⊢; exact h'
+        · rw [hr']; simp [allBodyRefs]
+        · rw [hroot']; simp [declares, fileRooted]
+      | some items =>
+        let v1 : FV := if f ∈ initFnRefs items then setRoot v else v
+        obtain ⟨v', h', hs', hi', hr', hroot'⟩ := evolve_some_flags ds f v1
+        have hs1 : v1.isStatic = v.isStatic := by simp only [v1]; split <;> rfl
+        have hi1 : v1.isInline = v.isInline := by simp only [v1]; split <;> rfl
+        have hr1 : v1.refs = v.refs := by simp only [v1]; split <;> rfl
+        have hroot1 : v1.isRoot = (v.isRoot || (initFnRefs items).contains f) := by
+          simp only [v1]
+          by_cases hm : f ∈ initFnRefs items
+          · simp [hm, setRoot]
+          · simp [hm]
+        refine ⟨v', ?_, hs'.trans hs1, hi'.trans hi1, ?_, ?_⟩
+        · simp only [evolve, List.foldl_cons, stepFV, Option.map_some] at h' ⊢; exact h'
+        · rw [hr', hr1]; simp [allBodyRefs]
+        · rw [hroot', hroot1, hs1, hi1]
+          simp only [declares, List.any_cons, fileRooted, Bool.true_and, Bool.false_or]
+          cases v.isRoot <;> cases (initFnRefs items).contains f <;> simp
 
 end ChibiVerif.Linkage
